@@ -309,10 +309,17 @@ def check_epoch(cx, p, jde, full=True):
     # --- evaluator vs exactly rounded direct double sum of the same tables
     if full:
         dl, db, dr = direct_sum(m.VSOP87_L, t), direct_sum(m.VSOP87_B, t), direct_sum(m.VSOP87_R, t)
-        tol_l = 1e-11 + 128 * math.ulp(abs(dl))
-        if abs(math.remainder(math.radians(lon) - dl, 2 * math.pi)) > tol_l:
-            cx.report("direct-sum-longitude", p, "evaluator L = %.15g rad, direct sum %.15g rad (mod 2 pi), tolerance %.3g at JDE %r"
-                      % (math.radians(lon), math.remainder(dl, 2 * math.pi) % (2 * math.pi), tol_l, jde), jde, gcall)
+        # the property's 1e-11 rad, literally.  The unreduced longitude series reaches 6.5e4 rad (Mercury at the ends of
+        # the range), where one ulp is 7.3e-12 rad; the library's plain left-to-right summation of ~1500 terms, the
+        # Horner step in t and the radian -> degree -> reduction path accumulate up to ~30 ulp there (2.1e-10 rad =
+        # 4e-5 arcsec), more than the literal number.  That situation - and only that - is the known finding
+        # direct-sum-longitude-summation-rounding (envelope: deviation <= 64 ulp of the unreduced sum).
+        dev_l = abs(math.remainder(math.radians(lon) - dl, 2 * math.pi))
+        if dev_l > 1e-11:
+            ul = math.ulp(abs(dl))
+            key = "direct-sum-longitude-summation-rounding" if dev_l <= 64 * ul else "direct-sum-longitude"
+            cx.report(key, p, "evaluator L = %.15g rad, direct sum %.15g rad (mod 2 pi): %.3g rad apart (> 1e-11; ulp of the unreduced sum %.3g) at JDE %r"
+                      % (math.radians(lon), math.remainder(dl, 2 * math.pi) % (2 * math.pi), dev_l, ul, jde), jde, gcall)
         if abs(math.radians(lat) - db) > 1e-11:
             cx.report("direct-sum-latitude", p, "evaluator B = %.15g rad, direct sum %.15g rad at JDE %r" % (math.radians(lat), db, jde), jde, gcall)
         if abs(r - dr) > 1e-11:
@@ -321,9 +328,11 @@ def check_epoch(cx, p, jde, full=True):
             jl, jb, jr = vs["lon-range-geometric-j2000"]
             e0 = cls.geometric_heliocentric_position_j2000(e, False); cx.n += 1
             d0 = direct_sum(m.VSOP87_L_J2000, t)
-            if abs(math.remainder(e0[0].rad() - d0, 2 * math.pi)) > 1e-11 + 128 * math.ulp(abs(d0)) \
-                    or abs(e0[1].rad() - direct_sum(m.VSOP87_B_J2000, t)) > 1e-11:
-                cx.report("direct-sum-longitude", p, "J2000 tables: evaluator (%r, %r) vs direct sum at JDE %r" % (float(e0[0]), float(e0[1]), jde),
+            dev0 = abs(math.remainder(e0[0].rad() - d0, 2 * math.pi)); u0 = math.ulp(abs(d0))
+            if dev0 > 1e-11 or abs(e0[1].rad() - direct_sum(m.VSOP87_B_J2000, t)) > 1e-11:
+                key = ("direct-sum-longitude-summation-rounding"
+                       if (dev0 <= 64 * u0 and abs(e0[1].rad() - direct_sum(m.VSOP87_B_J2000, t)) <= 1e-11) else "direct-sum-longitude")
+                cx.report(key, p, "J2000 tables: evaluator (%r, %r) vs direct sum at JDE %r (%.3g rad apart, ulp %.3g)" % (float(e0[0]), float(e0[1]), jde, dev0, u0),
                           jde, "Earth.geometric_heliocentric_position_j2000(Epoch(%r), False)" % jde)
         v0 = vs.get("lon-range-vsop_pos")
         if v0 and (abs(wrap180(v0[0] - lon)) > 1e-12 or abs(v0[1] - lat) > 1e-12 or abs(v0[2] - r) > 1e-12):
